@@ -30,9 +30,31 @@ BYTE_API = re.compile(
     r"|^<(str|String|std::string::String|alloc::string::String) as (std::ops::|core::ops::)?Index(Mut)?<")
 
 
-def family(prog, root):
-    """the implementing closure and the closures nested in it"""
-    return [b for d, b in prog.bodies.items() if d == root or d.startswith(root + "::")]
+PLUMBING = re.compile(r"ResolvedArgs>::|sass::name::Name>::|CallError>::|functions::check::|^<.* as (std::convert::)?(From|Into|TryFrom|TryInto)<")
+
+
+def family(prog, root, depth=3):
+    """the implementing closure, the closures nested in it, and the crate-local functions they call
+    (to the given depth; argument plumbing — ResolvedArgs, Name, CallError, check::*, conversions — is not followed)"""
+    fam = [b for d, b in prog.bodies.items() if d == root or d.startswith(root + "::")]
+    seen = {b.def_ for b in fam}
+    frontier = list(fam)
+    for _ in range(depth):
+        nxt = []
+        for b in frontier:
+            for _, t in b.calls():
+                d = mir.callee_name(t)
+                if d and d in prog.bodies and d not in seen and not PLUMBING.search(d):
+                    seen.add(d)
+                    nxt.append(prog.bodies[d])
+                    # closures of a followed helper
+                    for d2, b2 in prog.bodies.items():
+                        if d2.startswith(d + "::{closure") and d2 not in seen:
+                            seen.add(d2)
+                            nxt.append(b2)
+        fam.extend(nxt)
+        frontier = nxt
+    return fam
 
 
 def run(ctx, F):
@@ -72,7 +94,7 @@ def run(ctx, F):
                 n = mir.short(full)
                 if not BYTE_API.search(n):
                     continue
-                key = f"{fn_key(b.def_, P)}|{n}"
+                key = f"sass:string.{name}|{fn_key(b.def_, P)}|{n}" if not b.def_.startswith(impl[name]) else f"{fn_key(b.def_, P)}|{n}"
                 if "Index" in n and any("Index<" in ct and "index(" in ct for ct in chars_terms):
                     ctx.ok("code-point-model", key, "byte slice is measured with chars() (prefix before a `find` hit)", status="discharged")
                     continue
